@@ -54,6 +54,49 @@ theorem positive_angle_is_right : (cart2polar (1 : ℝ) 0).2 = Real.pi / 2 := by
   have : (⟨0, 1⟩ : ℂ) = Complex.I := by apply Complex.ext <;> simp
   rw [this, Complex.arg_I]
 
+/-! ### 1b. radius, angle range, sign and mirror symmetry of the angle convention -/
+
+/-- the radius is the Euclidean distance and is never negative -/
+theorem cart2polar_radius (x y : ℝ) : (cart2polar x y).1 = Real.sqrt (x ^ 2 + y ^ 2) ∧ 0 ≤ (cart2polar x y).1 := by
+  simp only [cart2polar, sqrt_real]
+  exact ⟨by congr 1; ring, Real.sqrt_nonneg _⟩
+
+/-- angles are reported in `(−π, π]` -/
+theorem cart2polar_angle_range (x y : ℝ) : -Real.pi < (cart2polar x y).2 ∧ (cart2polar x y).2 ≤ Real.pi := by
+  simp only [cart2polar, HasAtan2.atan2]
+  exact ⟨Complex.neg_pi_lt_arg _, Complex.arg_le_pi _⟩
+
+/-- **the sign of the angle is the sign of `x`**: points to the right of the vertical axis have positive angles, points to the left
+    negative ones (the angle is measured from the upward vertical, clockwise positive in image coordinates) -/
+theorem angle_sign (x y : ℝ) : (0 < x → 0 < (cart2polar x y).2) ∧ (x < 0 → (cart2polar x y).2 < 0) := by
+  simp only [cart2polar, HasAtan2.atan2]
+  constructor
+  · intro hx
+    have h := (Complex.arg_nonneg_iff (z := (⟨y, x⟩ : ℂ))).2 (by simpa using hx.le)
+    rcases h.lt_or_eq with h | h
+    · exact h
+    · exfalso
+      have := (Complex.arg_eq_zero_iff (z := (⟨y, x⟩ : ℂ))).1 h.symm
+      simp at this
+      linarith [this.2]
+  · intro hx
+    exact (Complex.arg_neg_iff (z := (⟨y, x⟩ : ℂ))).2 (by simpa using hx)
+
+/-- **mirror symmetry of the convention**: reflecting a point in the vertical axis negates its angle (away from the downward
+    half-axis, where the angle is `π` on both sides) -/
+theorem angle_mirror (x y : ℝ) (h : x ≠ 0 ∨ 0 < y) : (cart2polar (-x) y).2 = -(cart2polar x y).2 := by
+  simp only [cart2polar, HasAtan2.atan2]
+  have e : (⟨y, -x⟩ : ℂ) = (starRingEnd ℂ) ⟨y, x⟩ := by apply Complex.ext <;> simp
+  rw [e, Complex.arg_conj]
+  have hne : Complex.arg (⟨y, x⟩ : ℂ) ≠ Real.pi := by
+    intro hpi
+    have := (Complex.arg_eq_pi_iff (z := (⟨y, x⟩ : ℂ))).1 hpi
+    simp at this
+    rcases h with h | h
+    · exact h this.2
+    · linarith [this.1]
+  rw [if_neg hne]
+
 /-! ### 2. index_coords puts (0, 0) at the requested origin; negative origins count from the end -/
 
 theorem index_coords_origin (rows cols : ℕ) (oRow oCol : ℤ) (h0 : 0 ≤ oRow) (h1 : 0 ≤ oCol) :
